@@ -72,6 +72,9 @@ def step (st : St) (toks : List String) : St × String :=
   | ["commit"] =>
     let s' := commit crc32c s
     (some s', "ok " ++ toString s'.curFile ++ " " ++ toString s'.curOff)
+  | ["ocommit"] =>
+    let (s', failed) := commitObstructed crc32c s (s.curFile + 1)
+    (some s', if failed then "err driver" else "ok " ++ toString s'.curFile ++ " " ++ toString s'.curOff)
   | ["rollback"] => (some (rollback s), "ok")
   | ["has", h] => match hexBytes? h with
     | some h => (st, toString (hasBlock s h))
